@@ -531,9 +531,9 @@ def _det_set(w, o):
 
 PREDICATES = {
     "max1": lambda s: max(s) <= 1 if len(s) else True,
-    "even": lambda s: s.n_photons % 2 == 0,
+    "even": lambda s: sum(s) % 2 == 0,
     "m0_lt2": lambda s: (s[0] < 2) if len(s) else True,
-    "some": lambda s: s.n_photons >= 1,
+    "some": lambda s: sum(s) >= 1,
     "m0_zero": lambda s: (s[0] == 0) if len(s) else True,
     "all": lambda s: True,
 }
